@@ -210,6 +210,24 @@ def rule_visit3(prog, rep, tier, anchor="ast_utils.find_in_ast", location_induct
         if isinstance(n, ast.Assign) and isinstance(n.value, ast.Call) and isinstance(n.value.func, ast.Name) and n.value.func.id == "next":
             if any(isinstance(c, ast.Compare) and names_in(c) & (segs | {search}) and any(isinstance(o, ast.Eq) for o in c.ops) for c in ast.walk(n.value)):
                 found_vars |= names_in(n.targets[0])
+        elif isinstance(n, ast.Assign) and isinstance(n.value, ast.Call):
+            # x = helper(..., q, ...): a lookup keyed on the segment, when the resolved helper compares a node identity
+            # (.arg/.name/.id/._location) with the parameter that receives q and returns None otherwise
+            call = n.value
+            for t in prog.resolve_expr_fn(call.func, call):
+                if not isinstance(t, FunctionInfo):
+                    continue
+                pnames = t.params()
+                keyed = [pnames[i] for i, a in enumerate(call.args) if i < len(pnames) and isinstance(a, ast.Name) and a.id in (segs | {search})]
+                keyed += [k.arg for k in call.keywords if k.arg and isinstance(k.value, ast.Name) and k.value.id in (segs | {search})]
+                ok = False
+                for c in ast.walk(t.node):
+                    if isinstance(c, ast.Compare) and len(c.ops) == 1 and isinstance(c.ops[0], ast.Eq):
+                        sides = [c.left, c.comparators[0]]
+                        if any(isinstance(x, ast.Attribute) and x.attr in ("arg", "name", "id", "_location") for x in sides) and any(isinstance(x, ast.Name) and x.id in keyed for x in sides):
+                            ok = True
+                if ok:
+                    found_vars |= names_in(n.targets[0])
 
     def consume_in(stmt):
         roots = _header_roots(stmt)
